@@ -52,6 +52,68 @@ fn nameless_structs<'a>(t: &'a Ty, out: &mut Vec<&'a Ty>) {
     }
 }
 
+/// the same definition with a documentation comment (`/// ..`, which the macro copies into the text constant as a line
+/// comment) behind every enumerator, struct member, tagged item and declaration
+fn documented(text: &str) -> String {
+    let toks: Vec<char> = text.chars().collect();
+    let mut out = String::new();
+    // stack of braces: true = the brace of an enum
+    let mut stack: Vec<bool> = Vec::new();
+    let mut last_words: Vec<String> = Vec::new();
+    let mut word = String::new();
+    let mut in_str = false;
+    let mut n = 0;
+    for &c in &toks {
+        if in_str {
+            out.push(c);
+            if c == '"' {
+                in_str = false;
+            }
+            continue;
+        }
+        if c.is_alphanumeric() || c == '_' {
+            word.push(c);
+            out.push(c);
+            continue;
+        }
+        if !word.is_empty() {
+            last_words.push(std::mem::take(&mut word));
+        }
+        match c {
+            '"' => {
+                in_str = true;
+                out.push(c);
+            }
+            '{' => {
+                let k = last_words.len();
+                let is_enum = (k >= 1 && last_words[k - 1] == "enum") || (k >= 2 && last_words[k - 2] == "enum");
+                stack.push(is_enum);
+                last_words.clear();
+                out.push(c);
+            }
+            '}' => {
+                if stack.pop() == Some(true) {
+                    n += 1;
+                    out.push_str(&format!(" /// last item {n}\n"));
+                }
+                last_words.clear();
+                out.push(c);
+            }
+            ',' if stack.last() == Some(&true) => {
+                n += 1;
+                out.push_str(&format!(", /// item {n}\n"));
+            }
+            ';' => {
+                n += 1;
+                out.push_str(&format!("; /// member {n}\n"));
+                last_words.clear();
+            }
+            _ => out.push(c),
+        }
+    }
+    out
+}
+
 fn main() {
     let deep = std::env::args().nth(1).as_deref() == Some("deep");
     let depth: usize = 1;
@@ -89,13 +151,22 @@ fn main() {
             }
         }
     }
+    // documented variants: every definition with an enum, and every fifth of the others
+    let base = defs.len();
+    for k in 0..base {
+        if defs[k].0.contains("enum") || k % 5 == 0 {
+            let d = documented(&defs[k].0.replace('\n', " "));
+            defs.push((d, defs[k].1.clone()));
+        }
+    }
     println!("// @generated by `cargo run --release -p vcore --bin genspecs{}`; do not edit.", if deep { " -- deep > vmacro/src/gen_specs_deep.rs" } else { " > vmacro/src/gen_specs.rs" });
     println!("// {} specifications: every definition of the reference enumerator of nesting depth <= {depth} over all leaf types, the extra", defs.len());
     println!("// definitions (arrays of arrays / enums / structs, sequences of arrays) {}; plain, with a named", if deep { "and every definition of depth <= 2 over uint" } else { "" });
-    println!("// top-level type and with the first nested enum / struct / taggedstruct / taggedunion hoisted into a named declaration.");
+    println!("// top-level type and with the first nested enum / struct / taggedstruct / taggedunion hoisted into a named declaration;");
+    println!("// the last {} are documented variants (a `///` comment behind every enumerator, member, tagged item, declaration).", defs.len() - base);
     println!("use super::*;");
     for (k, (text, _)) in defs.iter().enumerate() {
-        let one_line = text.replace('\n', " ");
+        let one_line = if text.contains("///") { text.clone() } else { text.replace('\n', " ") };
         println!("pub mod g{k:04} {{ a2lmacros_intree::a2ml_specification! {{ <G{k:04}> {one_line} }} }}");
     }
     for (k, (_, ty)) in defs.iter().enumerate() {
